@@ -31,9 +31,16 @@
 (*  - after a set was consumed a further message of the same sender and    *)
 (*    cid is a NEW message (the one-exchange-per-cid assumption is the     *)
 (*    caller's), so ExactRouting is stated per epoch.                      *)
+(*  - a send on the 1-buffered notify channel is handed directly to a      *)
+(*    receiver already blocked in the select (len(notify) stays 0): in the *)
+(*    model that is deposit followed at once by WakeToken (RouterTrace).   *)
 (* Deliberate deviations: stop() of shutdown runs after Unlock; the model  *)
 (* folds it into the Close step (it only enables RdErr). The panic         *)
-(* recovery of readLoop is the RdErr/rfl path with another message.        *)
+(* recovery of readLoop is the RdErr/rfl path with another message. The    *)
+(* arguments of a call are fixed before the call (callArg), the call       *)
+(* itself starts at its entry section. `started` also stands for c.stop.   *)
+(* History variables: arr/ep (arrivals per cid and sender, start of the    *)
+(* current epoch) feed the properties; h (actions taken) is outside VIEW.  *)
 (***************************************************************************)
 EXTENDS Integers, Sequences, FiniteSets, Bags, TLC
 
